@@ -20,7 +20,8 @@ LEVEL_TEXT = ('Every token sequence up to length 4 (quick) / 5 (thorough) over a
               'is executed on the rebuilt assembler and the set of assembled lines, diagnostics and exit status are compared with the model; '
               'the statement\'s invariants are evaluated on every model state. Conditional logic is a small state machine, so complete '
               'transition coverage within the nesting bound is the right level.'
-              ' The skipped-statement sub-space contains macro definitions (exported, with invalid headers) and compares the -M file.')
+              ' The skipped-statement sub-space contains macro definitions (exported, with invalid headers) and compares the -M file.'
+              ' Added in the last round: IFUSED in front of the first reference in a two-pass source.')
 LEVEL_NOTE = ('Trusted: the Python reference model written from the manual, marker-byte observation through the independent code-file reader. '
               'Bounds: nesting <= 4, sequences <= 5, fixed condition-form table; values inside conditions come from small alphabets.')
 RULE = ('(a) every token sequence up to the length bound over a 13-token alphabet; (b) breadth-first search of the '
